@@ -370,6 +370,27 @@ fn eval(a: &[String]) -> String {
       }
       out
     }
+    "week_scan" => {
+      // stepping a week by n moves its first day by 7n: civil (v[0] = 0) or lunar (1) weeks of a few years, all starts, n in -8..8
+      use tyme4rs::tyme::lunar::{LunarMonth, LunarWeek};
+      let mut out = "NONE".to_string();
+      if v[0] == 0 {
+        'c: for y in [1582isize, 2023, 2024] { for m in 1..13usize { for start in 0..7usize {
+          let cnt = SolarMonth::from_ym(y, m).get_week_count(start);
+          for idx in 0..cnt { let w = SolarWeek::from_ym(y, m, idx, start); let f = w.get_first_day();
+            for n in [-8isize, -5, -1, 1, 4, 8] { let g = w.next(n).get_first_day(); if g.subtract(f) != 7 * n {
+              out = format!("SolarWeek({}, {}, {}, start {}).next({}) moves the first day by {} days", y, m, idx, start, n, g.subtract(f)); break 'c; } } } } } }
+      } else {
+        let mut mo = LunarMonth::from_ym(2019, 12);
+        'l: for _ in 0..40 { for start in 0..7usize {
+          let cnt = mo.get_week_count(start);
+          for idx in 0..cnt { let w = LunarWeek::from_ym(mo.get_year(), mo.get_month_with_leap(), idx, start); let f = w.get_first_day().get_solar_day();
+            for n in [-8isize, -5, -1, 1, 4, 8] { let g = w.next(n).get_first_day().get_solar_day(); if g.subtract(f) != 7 * n {
+              out = format!("LunarWeek({}, {}, {}, start {}).next({}) moves the first day by {} days", mo.get_year(), mo.get_month_with_leap(), idx, start, n, g.subtract(f)); break 'l; } } } }
+          mo = mo.next(1); }
+      }
+      out
+    }
     "six_star" => {
       // month number, leap flag, day -> six star index on a real lunar day with these
       use tyme4rs::tyme::lunar::{LunarDay, LunarYear};
